@@ -7,6 +7,7 @@ import (
 	"io"
 	"os"
 	"path/filepath"
+	"unicode/utf8"
 
 	"github.com/cheggaaa/pb/v3"
 	"github.com/kevin-hanselman/dud/src/agglog"
@@ -394,6 +395,11 @@ func commitWorker(
 ) error {
 	for entry := range inputFiles {
 		path := entry.Name()
+		// Directory manifests are JSON, which can only represent valid UTF-8.
+		// Refuse other names instead of recording a different name.
+		if !utf8.ValidString(path) {
+			return errors.Errorf("%s: file name %q is not valid UTF-8", workPath, path)
+		}
 		var (
 			childArt *artifact.Artifact
 			err      error
